@@ -36,6 +36,10 @@ func sortedKeys[T any](paths map[string]T) []string {
 	return ret
 }
 
+// labelValueEscaper escapes a label value as required by the Prometheus text
+// exposition format (backslash, double quote and line feed).
+var labelValueEscaper = strings.NewReplacer(`\`, `\\`, `"`, `\"`, "\n", `\n`)
+
 func tags(m map[string]string) string {
 	var b strings.Builder
 	b.WriteByte('{')
@@ -47,7 +51,7 @@ func tags(m map[string]string) string {
 		first = false
 		b.WriteString(k)
 		b.WriteString("=\"")
-		b.WriteString(m[k])
+		b.WriteString(labelValueEscaper.Replace(m[k]))
 		b.WriteByte('"')
 	}
 	b.WriteByte('}')
